@@ -13,6 +13,7 @@ mod c01;
 mod c02;
 mod c03;
 mod c04;
+mod c04_group;
 mod c05;
 mod c06;
 mod c07;
